@@ -1200,7 +1200,7 @@ pub fn run(ctx: &Ctx) -> i32 {
     reports.push(simple_suite("plusptype_follower_fields", true, sweep_plus_misc));
     reports.push(exhaustive_suite(ctx, "epar_all_pairs", 256, &sweep_epar));
     reports.push(simple_suite("extra_information_chain_lengths", true, sweep_pei_lengths));
-    let cases = ctx.tier.pick(1_000_000u64, 20_000_000u64);
+    let cases = ctx.tier.pick(1_000_000u64, 40_000_000u64);
     reports.push(tape_suite(ctx, "random_cross_products", cases, 260, &random_header_case));
     let cfg = PicCfg { max_dim: 64, max_fixed_mbs: 48, budget: 400, extreme_aspect: true, ..PicCfg::quick() };
     let scases = ctx.tier.pick(20_000u64, 300_000u64);
